@@ -100,7 +100,9 @@ ALPHA = "abxyz  '\"!&;()=,%_09"
 
 def gen_line(rng, wide=False):
     n = rng.choice([0, 0, 1, 2, 3, 5, 8, 12])
-    pool = ALPHA + ("ééλ" if wide else "")
+    # wide: non-ASCII letters, and the characters str.splitlines() would break a line at although an LSP client does not
+    # (form feed, vertical tab, FS/GS/RS, NEL, LINE/PARAGRAPH SEPARATOR)
+    pool = ALPHA + ("ééλ\x0c\x0b\x1c\x1d\x1e\x85\u2028\u2029" if wide else "")
     return "".join(rng.choice(pool) for _ in range(n))
 
 
